@@ -449,6 +449,14 @@ def run_check(spec, argv):
         nviol = max(1, len(diffs) + len(errors))
         exit_code = 1
 
+    if exit_code:
+        # make a failing run diagnosable from its stdout alone
+        for kind, items in (("viol", viols), ("diff", diffs), ("error", errors)):
+            for ln, v in items[:4]:
+                print(f"  {kind}: {v[:300]}   <- case: {ln[:300]}")
+        for k, d in problems[:4]:
+            print(f"  problem[{k}]: {d[:600]}")
+
     # evidence
     nontrivial = spec.get("nontrivial", lambda ln: True)
     distinct = len({ln for ln in lines if nontrivial(ln)})
